@@ -520,7 +520,7 @@ def step_histories(draw, max_len=24):
         k = draw(st.integers(0, 9))
         if k <= 2:
             s = draw(st.sampled_from(S_SLOTS))
-            steps.append({"op": "write", "slot": s, "v": draw(v3)})
+            steps.append({"op": "write", "slot": s, "v": draw(v3), "keep_mtime": draw(st.booleans())})
         elif k == 3 and any(x["op"] == "match" for x in steps):
             steps.append(dict([x for x in steps if x["op"] == "match"][-1]))  # ask the previous question again
         else:
@@ -537,10 +537,16 @@ def _slot_path(d, slot):
     return os.path.join(d, slot + (".yaml" if slot[0] in "rm" else ".o" if slot == "b0" else ".s"))
 
 
-def _write_slot(d, slot, v):
+def _write_slot(d, slot, v, keep_mtime=False):
+    """keep_mtime: the file is replaced in place and gets its old timestamps back (cp -p, rsync -t, a patcher that restores them):
+    same path, same size, same mtime down to the nanosecond - only the content tells."""
     data = step_content(slot, v)
-    with open(_slot_path(d, slot), "wb" if isinstance(data, bytes) else "w") as f:
+    p = _slot_path(d, slot)
+    old = os.stat(p) if keep_mtime and os.path.exists(p) else None
+    with open(p, "wb" if isinstance(data, bytes) else "w") as f:
         f.write(data)
+    if old is not None:
+        os.utime(p, ns=(old.st_atime_ns, old.st_mtime_ns))
 
 
 def _run_step_match(d, stp):
@@ -600,7 +606,7 @@ def eval_steps(case):
         outs = {}
         for k, stp in enumerate(steps):
             if stp["op"] == "write":
-                _write_slot(hist, stp["slot"], stp["v"])  # in place: same path, same length, (almost always) the same second
+                _write_slot(hist, stp["slot"], stp["v"], keep_mtime=bool(stp.get("keep_mtime")))  # in place: same path, same length, (almost always) the same second
             else:
                 outs[k] = _run_step_match(hist, stp)
         return outs
@@ -688,7 +694,7 @@ class _Worker:
                     except EOFError:
                         break
                     if cmd[0] == "write":
-                        _write_slot(self.dir, cmd[1], cmd[2])
+                        _write_slot(self.dir, cmd[1], cmd[2], keep_mtime=bool(cmd[3]) if len(cmd) > 3 else False)
                         res = "written"
                     else:
                         try:
@@ -760,8 +766,9 @@ def make_machine():
 
         def _write(self, slot, v):
             self.model[slot] = list(v)
-            self.steps.append({"op": "write", "slot": slot, "v": list(v)})
-            self.worker.call("write", slot, list(v))
+            keep = sum(v) % 2 == 1  # half of the rewrites put the old timestamps back
+            self.steps.append({"op": "write", "slot": slot, "v": list(v), "keep_mtime": keep})
+            self.worker.call("write", slot, list(v), keep)
             if slot in self.read:
                 self.stale.add(slot)
             RewriteHistories.stats["steps"] += 1
